@@ -60,7 +60,7 @@ func (f *File) IsDir() bool {
 func (f *File) getData() []byte {
 	f.dataMU.RLock()
 	defer f.dataMU.RUnlock()
-	return f.data
+	return append([]byte{}, f.data...)
 }
 
 // setData set new file data bytes
@@ -68,5 +68,5 @@ func (f *File) setData(data []byte) {
 	f.dataMU.Lock()
 	defer f.dataMU.Unlock()
 	f.time = time.Now()
-	f.data = data
+	f.data = append([]byte{}, data...)
 }
